@@ -4,8 +4,11 @@ import json,glob,os
 root=os.path.dirname(os.path.dirname(os.path.abspath(__file__)))
 props=[json.loads(l)['id'] for l in open(os.path.join(root,'properties.jsonl'))]
 checks=[];claimed=set()
+enabled=set(open(os.path.join(root,'meta','ENABLED')).read().split())
 for f in sorted(glob.glob(os.path.join(root,'meta','C*.json'))):
-    m=json.load(open(f)); pid=m['property_id']; claimed.add(pid)
+    m=json.load(open(f)); pid=m['property_id']
+    if pid not in enabled: continue
+    claimed.add(pid)
     checks.append({
       "property_id":pid,
       "quick_cmd":"./run %s quick"%pid,
